@@ -28,7 +28,8 @@ type vSiteResultC03 struct {
 }
 
 // evalSite applies the changes to a clone of the healthy store and runs both oracles.
-func (r *vRepoC03) evalSite(muts []vMutC03) vSiteResultC03 {
+// snaps selects the snapshots on which oracle (2) is run (nil = all).
+func (r *vRepoC03) evalSite(muts []vMutC03, snaps []int) vSiteResultC03 {
 	res := vSiteResultC03{}
 	s := r.e.store.Clone()
 	for _, m := range muts {
@@ -54,7 +55,11 @@ func (r *vRepoC03) evalSite(muts []vMutC03) vSiteResultC03 {
 	}
 	// the read-only commands must not have "repaired" or otherwise written anything but locks
 	allOK := true
-	for _, sn := range r.snaps {
+	if snaps == nil {
+		snaps = vRange(len(r.snaps))
+	}
+	for _, si := range snaps {
+		sn := r.snaps[si]
 		o, v := r.restoreOutcome(se, sn)
 		res.Classes = append(res.Classes, "restore="+o)
 		if v != "" {
@@ -70,7 +75,7 @@ func (r *vRepoC03) evalSite(muts []vMutC03) vSiteResultC03 {
 		}
 		allOK = allOK && o == "ok"
 	}
-	if r.Desc.Dup && len(muts) == 1 && muts[0].Type == backend.PackFile.String() {
+	if r.Desc.Dup && len(snaps) == len(r.snaps) && len(muts) == 1 && muts[0].Type == backend.PackFile.String() {
 		// a damaged pack whose blobs all have a second copy: does restic fall back? (measured, not demanded)
 		all := true
 		for _, b := range r.packs[muts[0].Name] {
@@ -96,7 +101,7 @@ func vMutsStringC03(muts []vMutC03) string {
 func TestVerifC03Sampled(t *testing.T) {
 	vSetup(t)
 	st := verifkit.Begin(t, "C03")
-	sitesPerRepo := verifkit.Scale(36, 60)
+	sitesPerRepo := verifkit.Scale(30, 60)
 	rapid.Check(t, func(t *rapid.T) {
 		r := vGenRepoC03(t, vRepoGenC03{AllowDup: true, AllowTwoKeys: true, AllowMultiBlob: true})
 		defer r.Close()
@@ -115,7 +120,12 @@ func TestVerifC03Sampled(t *testing.T) {
 			for j := 0; j < n; j++ {
 				muts = append(muts, r.vDrawMutC03(t, false))
 			}
-			res := r.evalSite(muts)
+			// oracle (2) on every snapshot for a third of the sites, on one drawn snapshot otherwise
+			var sel []int
+			if rapid.IntRange(0, 2).Draw(t, "allsnaps") != 0 {
+				sel = []int{rapid.IntRange(0, len(r.snaps)-1).Draw(t, "snap")}
+			}
+			res := r.evalSite(muts, sel)
 			classes := res.Classes
 			for _, m := range muts {
 				classes = append(classes, "op="+m.Op, "site="+m.Where)
@@ -189,7 +199,7 @@ func TestVerifC03Exhaustive(t *testing.T) {
 		defer r.Close()
 		m := site.Mut
 		m.Name = r.files[site.Rank%len(r.files)].Name
-		res := r.evalSite([]vMutC03{m})
+		res := r.evalSite([]vMutC03{m}, nil)
 		if res.Violation != "" {
 			t.Fatalf("C03 violated (replay): %s\nchange: %s", res.Violation, vJSON(m))
 		}
@@ -197,7 +207,7 @@ func TestVerifC03Exhaustive(t *testing.T) {
 	}
 
 	// quick: every stride-th site (phase from the seed); thorough: every site
-	stride := verifkit.Scale(53, 1)
+	stride := verifkit.Scale(97, 1)
 	phase := int(verifkit.Seed() % int64(stride))
 	shard, shards := verifkit.Shard(), verifkit.Shards()
 	for _, name := range []string{"v1", "v2"} {
@@ -222,7 +232,7 @@ func TestVerifC03Exhaustive(t *testing.T) {
 		}
 		run := func(rank int, m vMutC03) {
 			visited++
-			res := r.evalSite([]vMutC03{m})
+			res := r.evalSite([]vMutC03{m}, nil)
 			key := ""
 			if res.Depended {
 				key = fmt.Sprintf("%s/%d/%s/%d/%d", name, rank, m.Op, m.Off, m.Bit)
@@ -257,12 +267,12 @@ func TestVerifC03Exhaustive(t *testing.T) {
 			}
 			if take() {
 				m := base
-				m.Op, m.Where = "delete", k.Type.String()+"/whole"
+				m.Op, m.Where = "delete", vTypeNameC03(k.Type)+"/whole"
 				run(rank, m)
 			}
 			if take() {
 				m := base
-				m.Op, m.N, m.Val, m.Where = "extend", 1, 0, k.Type.String()+"/append"
+				m.Op, m.N, m.Val, m.Where = "extend", 1, 0, vTypeNameC03(k.Type)+"/append"
 				run(rank, m)
 			}
 		}
